@@ -261,26 +261,26 @@ def step (line : String) : String :=
       | some d, some t, some o, some h, some f =>
         if ¬ qmGuard d o h f then "undef"
         else if mt = "parametric" then
-          if scalesOk ratSigmoid [o, h] then let v := qmParam rs t d o h f; outFI v (noFlags v) (qmParamIll t d o h f)
+          if qmParamGuard ratSigmoid d o h f then let v := qmParam rs t d o h f; outFI v (noFlags v) (qmParamIll t d o h f)
           else "undef"
         else if mt = "nonparametric" then outF (qmNonparam d o h f) (qmNonparamFlags d o h f)
         else "bad-op"
       | _, _, _, _, _ => "bad-op"
   | ["ecdfm", t, o, h, f] => match parseRat? t, rats? o, rats? h, rats? f with
       | some t, some o, some h, some f =>
-        if scalesOk ratSigmoid [o, h, f] then let v := ecdfm rs t o h f; outFI v (noFlags v) (ecdfmIll t f) else "undef"
+        if ecdfmGuard ratSigmoid o h f then let v := ecdfm rs t o h f; outFI v (noFlags v) (ecdfmIll t f) else "undef"
       | _, _, _, _ => "bad-op"
   | ["qdm", tp, em, t, c, o, h, f] =>
       match tp? tp, ecdfM? em, parseRat? t, censor? c, rats? o, rats? h, rats? f with
       | some tp, some em, some t, some c, some o, some h, some f =>
-        if ¬ scalesOk ratSigmoid [o, h] ∨ f = [] then "undef"
+        if ¬ qdmGuard o h f then "undef"
         else if tp = .relative ∧ ¬ qdmRelGuard rs (ecdf1 em) t f (rs.fit h) then "undef"
         else outFI (qdmWindow rs tp em t c o h f) (qdmFlags tp em t c f (rs.fit o) (rs.fit h)) (qdmIll em t f)
       | _, _, _, _, _, _, _ => "bad-op"
   | ["qdmyears", tp, em, t, c, L, S, ys, o, h, f] =>
       match tp? tp, ecdfM? em, parseRat? t, censor? c, parseInt? L, parseInt? S, ints? ys, rats? o, rats? h, rats? f with
       | some tp, some em, some t, some c, some L, some S, some ys, some o, some h, some f =>
-        if ¬ scalesOk ratSigmoid [o, h] ∨ f = [] then "undef"
+        if ¬ qdmGuard o h f then "undef"
         else
           let g : Model.Skeleton.YearFn Rat := fun Fw _ =>
             .ok (boolsToRat (qdmFlags tp em t c Fw (rs.fit o) (rs.fit h)))
